@@ -195,6 +195,38 @@ def run(ctx):
                                     {"traced": qs}, {"stub": text[-800:]})
                     else:
                         H.ok(key, sample={"module": name, "traced": qs[:4], "stub_head": text[:160]})
+        # source-annotated functions under every annotation strategy (alone in their module stub, so nothing else contributes imports)
+        from monkeytype.stubs import ExistingAnnotationStrategy
+        H.section("annotated sources x strategies", "functions with source annotations (class, Optional, generic; defaults None / other) traced alone, stub generated with REPLICATE / OMIT / IGNORE: parses, one def, same parameter list",
+                  "6 functions x 3 strategies")
+        asrc = ("from typing import Optional, List\n"
+                "def a0(x: int = None):\n    return x\n"
+                "def a1(x: int = None, y: str = 'q'):\n    return x\n"
+                "def a2(x: Optional[int] = None, *, k: List[int] = None) -> int:\n    return 1\n"
+                "def a3(x: int, y=None):\n    return x\n"
+                "def a4(x: 'int' = None):\n    return x\n"
+                "class C:\n    def m(self, x: int = None) -> None:\n        return None\n")
+        name = "c12ann%d" % ctx["seed"]
+        with open(os.path.join(tmp, name + ".py"), "w") as f:
+            f.write(asrc)
+        importlib.invalidate_caches()
+        mod = importlib.import_module(name)
+        for fn in (mod.a0, mod.a1, mod.a2, mod.a3, mod.a4, mod.C.m):
+            for strat in ExistingAnnotationStrategy:
+                for at in ({}, {n: int for n in inspect.signature(fn).parameters}):
+                    key = "%s|%s|%s" % (fn.__qualname__, strat.name, bool(at))
+                    try:
+                        text = build_module_stubs_from_traces([CallTrace(fn, at, int if at else None)], 0, existing_annotation_strategy=strat)[name].render()
+                        tree = ast.parse(text)
+                        got = stub_functions(tree)
+                        real = [(p.name, p.kind, p.default is not P.empty) for p in inspect.signature(fn).parameters.values()]
+                        sp = [(n, k, d) for n, k, d, _ in stub_params(got[fn.__qualname__][0])]
+                        if sp != real:
+                            raise AssertionError("parameters %s != %s" % (sp, real))
+                        H.ok(key, sample={"function": fn.__qualname__, "strategy": strat.name, "stub": text[:200]})
+                    except Exception as e:
+                        H.violation("monkeytype.stubs:ModuleStub.render", "annotated:%s:%s" % (key, type(e).__name__), "stub of an annotated function does not parse / mirror it under %s" % strat.name,
+                                    {"function": fn.__qualname__, "strategy": strat.name, "traced": bool(at)}, repr(e))
     finally:
         sys.path.remove(tmp)
         shutil.rmtree(tmp, ignore_errors=True)
